@@ -3,10 +3,12 @@
   registered with the `voltage` argument at phase angle 0, behind ONE constraint `Σ_j I_j ≤ current_cap`,
   `current_cap = (aggregate_cap / voltage) * 1000`.
 
-  The three expressions the body passes on (`voltage`, `0`, `current_cap`) are NOT written here: they are read
-  from the AST of the working tree on every run (`Gen/SimpleAcn.lean`: `voltageExpr`, `angleExpr`, `limitExpr`)
-  and evaluated by `evalS` in the source's operation order — at `Float` by the driver, at an ordered field by
-  the theorems (`AcnProofs/C16Simple.lean`; the obligation `simple_formula` states what they denote).
+  The limit is NOT written here: its dependence on (`aggregate_cap`, `voltage`) is fitted on every run to the
+  networks the factory of the working tree BUILDS (`Gen/SimpleAcn.lean`: `limitMono`, a canonical monomial
+  `n/d · cap^±1 · voltage^±1` — independent of how the source spells the formula) and evaluated by `evalMono`
+  — at `Float` by the driver, at an ordered field by the theorems (`AcnProofs/C16Simple.lean`; the obligation
+  `simple_formula` states what it denotes).  That every station is registered with the `voltage` argument at
+  0° is transcribed from auto_acn.py:27-28 and re-checked on the executed calls (`instOk`, `simple_instances`).
   Feasibility is the shared `Feas.netFeasible` (charging_network.py:486-541) with the unit phasor of 0°, (1, 0).
 -/
 import AcnModel.Feas
@@ -17,7 +19,7 @@ open Acn Acn.Gen.SimpleAcn
 
 inductive SimpleErr where
   | zeroDivision      -- Python `ZeroDivisionError` (`aggregate_cap / 0`)
-  | notTranslated     -- the translator could not read an expression of the body
+  | notTranslated     -- the limit of the built networks is not a monomial of the modelled class
   | badAngle          -- a registration angle other than 0°: outside the modelled class (cos/sin not available)
   | noDefault         -- an argument was omitted and the signature default is not a plain number
   deriving DecidableEq, Repr
@@ -41,21 +43,28 @@ def litK (n : Int) (d : Nat) : K := intK n / ((d : Nat) : K)
 /-- `x == 0` for a double (−0.0 included) / in an ordered field -/
 def isZero (x : K) : Bool := decide (x ≤ 0) && decide (0 ≤ x)
 
-/-- value of an expression of the body at `aggregate_cap = cap`, `voltage = voltage`, in the source's
-    operation order; Python raises `ZeroDivisionError` on a zero divisor -/
-def evalS (cap voltage : K) : SExpr → Except SimpleErr K
-  | .cap => .ok cap
-  | .voltage => .ok voltage
-  | .lit n d => .ok (litK n d)
-  | .mul a b => do let x ← evalS cap voltage a; let y ← evalS cap voltage b; pure (x * y)
-  | .div a b => do
-      let x ← evalS cap voltage a
-      let y ← evalS cap voltage b
-      if isZero y then .error .zeroDivision else pure (x / y)
-  | .add a b => do let x ← evalS cap voltage a; let y ← evalS cap voltage b; pure (x + y)
-  | .sub a b => do let x ← evalS cap voltage a; let y ← evalS cap voltage b; pure (x - y)
-  | .neg a => do let x ← evalS cap voltage a; pure (-x)
-  | .unknown => .error .notTranslated
+/-- one factor of the monomial, applied to the running value; Python raises `ZeroDivisionError` on a zero divisor -/
+def applyDep (x a : K) : Dep → Except SimpleErr K
+  | .none => .ok x
+  | .times => .ok (x * a)
+  | .over => if isZero a then .error .zeroDivision else .ok (x / a)
+
+/-- value of the fitted monomial at `aggregate_cap = cap`, `voltage = voltage`, in the canonical operation order
+    `((1 ∘ cap) ∘ voltage) · n/d` — for `1000 · cap / voltage` that is `(cap / voltage) * 1000`, the order of
+    auto_acn.py:33 -/
+def evalMono (cap voltage : K) (m : Mono) : Except SimpleErr K := do
+  let x ← match m.cap with
+    | .none => pure 1
+    | .times => pure cap
+    | .over => if isZero cap then .error .zeroDivision else pure (1 / cap)
+  let y ← applyDep x voltage m.voltage
+  pure (y * litK m.n m.d)
+
+/-- the limit of the aggregate constraint [A] -/
+def limitOf (cap voltage : K) : Except SimpleErr K :=
+  match limitMono with
+  | some m => evalMono cap voltage m
+  | none => .error .notTranslated
 
 /-- what `simple_acn` returns, as far as C16 reads it -/
 structure Net (K : Type) where
@@ -66,14 +75,12 @@ structure Net (K : Type) where
   lims : List K               -- `magnitudes`
   names : List String         -- `constraint_index`
 
-/-- auto_acn.py:26-35 for distinct station ids: every id registered with (`voltageExpr`, `angleExpr`), then the
-    one constraint over all of them with limit `limitExpr`.  (The registrations come first in the source; they
-    cannot raise, so the only error is the division in `current_cap`.) -/
+/-- auto_acn.py:26-35 for distinct station ids: every id registered with (`voltage`, 0°), then the one constraint
+    over all of them with the fitted limit.  (The registrations come first in the source; they cannot raise, so
+    the only error is the division in `current_cap`.) -/
 def simpleAcn (ids : List String) (voltage cap : K) : Except SimpleErr (Net K) := do
-  let v ← evalS cap voltage voltageExpr
-  let a ← evalS cap voltage angleExpr
-  let lim ← evalS cap voltage limitExpr
-  pure { stations := ids, voltages := ids.map fun _ => v, angles := ids.map fun _ => a,
+  let lim ← limitOf cap voltage
+  pure { stations := ids, voltages := ids.map fun _ => voltage, angles := ids.map fun _ => 0,
          M := [ids.map fun _ => 1], lims := [lim], names := [constraintName] }
 
 /-- `ChargingNetwork.is_feasible(S)` of a network all of whose stations sit at 0° (unit phasor (1, 0));
@@ -125,7 +132,7 @@ def evseTable (ty : String) : Option (Bool × List (Int × Nat)) :=
 /-- One executed call agrees with `simpleAcn` at the arguments passed (omitted ones: the signature defaults):
     the stations are the distinct ids asked for, in order; every angle is 0 and every voltage the requested one;
     there is exactly one constraint, with coefficient 1 on every station; its limit is the exact value of
-    `limitExpr` up to double rounding; the EVSEs are of the requested type. -/
+    the fitted monomial up to double rounding; the EVSEs are of the requested type. -/
 def instOk (I : Inst) : Bool :=
   let n := I.ids.length
   match (I.voltage <|> defaultVoltage), (I.cap <|> defaultCap) with
@@ -135,7 +142,7 @@ def instOk (I : Inst) : Bool :=
     decide (I.voltages.length = n) && I.voltages.all (fun q => decide (ratOf q = ratOf v)) &&
     I.conNames == [constraintName] &&
     I.rows == [(List.range n).map fun j => (j, (1 : Int), 1)] &&
-    (match I.limits, evalS (K := Rat) (ratOf c) (ratOf v) limitExpr with
+    (match I.limits, limitOf (K := Rat) (ratOf c) (ratOf v) with
      | [l], .ok q => decide (absRat (ratOf l - q) ≤ limEps * absRat q)
      | _, _ => false) &&
     (match evseTable (if I.evseType == "" then defaultEvseType else I.evseType) with
